@@ -1,0 +1,19 @@
+//go:build verif
+
+package credentials
+
+// Contracts for gocv (see /verif/DESIGN.md). Comment-only file.
+
+//@ package credentials
+//@ import auth "oras.land/oras-go/v2/registry/remote/auth"
+//@
+//@ func validateCredentialFormat
+//@   ensures [C18:colon-rule] (result != nil) == hasColon(cred.Username)
+//@   modifies alloc, elems[any]
+//@
+//@ ghost local fsValidated bool
+//@ func (*FileStore).Put
+//@   requires [wf] fs.config != nil && cfgWf(fs.config)
+//@   entry set fsValidated = false
+//@   call validateCredentialFormat set fsValidated = result == nil && args.cred == cred
+//@   call PutCredential requires [C18:validated-before-put] fsValidated && !hasColon(args.cred.Username) && args.cred == cred && args.serverAddress == serverAddress
